@@ -104,6 +104,10 @@ class Ctx:
         else:
             fq, rel = str(where), str(where)
         construct = norm(node) if node is not None else ""
+        if verdict == "violation" and isinstance(where, FuncInfo):
+            ren = (getattr(where.module, "alpha", None) or {}).get(where.qual.split(".<locals>")[0])
+            if ren:
+                why = f"{why} [locals are shown under their reference names; on disk: " + ", ".join(f"{v} is spelt {c}" for c, v in sorted(ren.items())[:8]) + "]"
         r = {
             "rule": rule,
             "where": fq,
@@ -201,6 +205,8 @@ def write_evidence(ctx: Ctx, wall, violations, known_hits, extra=None, path=None
         "functions_indexed": sum(len(m.funcs) for m in ctx.repo.modules.values()),
         "modules_consulted": dict(sorted(ctx.repo.consulted.items())),
         "typed": ctx.typed,
+        "canonicalisation": "sa/canon.py K1-K6 and sa/alpha.py (renamed locals restored to the reference spelling by consistent renaming) applied to every module at load time",
+        "locals_restored": {rel: m.alpha for rel, m in sorted(ctx.repo.modules.items()) if rel in ctx.repo.consulted and getattr(m, "alpha", None)},
         "observations": ctx.observations,
         "known_findings_reported": known_hits,
         "checker_cmd": f"./check {ctx.prop} --tier {ctx.tier}",
